@@ -20,4 +20,4 @@ def run(ctx):
         "as C02: written data never contains zero bytes, files are shrunk to aligned and unaligned sizes and re-grown, removed and their blocks recycled "
         "by new files, sparse writes at block-map boundaries; every READ/READLINK reply is compared with the model",
         ["the block-level invariant (free blocks are zero on disk) is not yet modelled"],
-        pending=["free_blocks_zero / fresh_alloc_zero on the block-map model (M7)", "no_foreign_bytes at block level"])
+        pending=["no_foreign_bytes at the byte level of a block (M7 models pointers and whole blocks; freed blocks are proved all-zero: freed_blocks_are_all_zeros)"])
